@@ -69,6 +69,57 @@ macro_rules! quire_hist {
     }};
 }
 
+
+/// `q32 histpx <N> tokens...`: the same history grammar on Q32E2 with PxE2<N> operands (operator impls, arrays, the
+/// `Quire<PxE2<N>>` trait methods); result: "<PxE2::from(&q)> <Quire::to_posit(&q)> <PxE2::from(q)> <is_nar>"
+fn histpx<const N: u32>(v: &[&str]) -> String {
+    let p = |s: &str| PxE2::<N>::from_bits(hx(s) as u32);
+    let mut q = Q32E2::init();
+    let mut i = 3;
+    while i < v.len() {
+        match v[i] {
+            "ap" => { q += (p(v[i + 1]), p(v[i + 2])); i += 3; }
+            "sp" => { q -= (p(v[i + 1]), p(v[i + 2])); i += 3; }
+            "a1" => { q += p(v[i + 1]); i += 2; }
+            "s1" => { q -= p(v[i + 1]); i += 2; }
+            "ap2" => { q += (p(v[i + 1]), (p(v[i + 2]), p(v[i + 3]))); i += 4; }
+            "sp2" => { q -= (p(v[i + 1]), (p(v[i + 2]), p(v[i + 3]))); i += 4; }
+            "ap3" => { q += (p(v[i + 1]), (p(v[i + 2]), p(v[i + 3]), p(v[i + 4]))); i += 5; }
+            "ap22" => { q += ((p(v[i + 1]), p(v[i + 2])), (p(v[i + 3]), p(v[i + 4]))); i += 5; }
+            "sp22" => { q -= ((p(v[i + 1]), p(v[i + 2])), (p(v[i + 3]), p(v[i + 4]))); i += 5; }
+            "apa" | "spa" => {
+                let x = p(v[i + 1]);
+                let n = hx(v[i + 2]) as usize;
+                let add = v[i] == "apa";
+                match n {
+                    1 => { let a = [p(v[i + 3])]; if add { q += (x, a) } else { q -= (x, a) } }
+                    2 => { let a = [p(v[i + 3]), p(v[i + 4])]; if add { q += (x, a) } else { q -= (x, a) } }
+                    3 => { let a = [p(v[i + 3]), p(v[i + 4]), p(v[i + 5])]; if add { q += (x, a) } else { q -= (x, a) } }
+                    4 => { let a = [p(v[i + 3]), p(v[i + 4]), p(v[i + 5]), p(v[i + 6])]; if add { q += (x, a) } else { q -= (x, a) } }
+                    _ => panic!("bad array length"),
+                }
+                i += 3 + n;
+            }
+            "tp" => { <Q32E2 as Quire<PxE2<N>>>::add_product(&mut q, p(v[i + 1]), p(v[i + 2])); i += 3; }
+            "ts" => { <Q32E2 as Quire<PxE2<N>>>::sub_product(&mut q, p(v[i + 1]), p(v[i + 2])); i += 3; }
+            "fp" => { q = <Q32E2 as Quire<PxE2<N>>>::from_posit(p(v[i + 1])); i += 2; }
+            "neg" => { q.neg(); i += 1; }
+            "clear" => { q.clear(); i += 1; }
+            "rt" => { q = Q32E2::from_bits(q.to_bits()); i += 1; }
+            t => panic!("bad token {}", t),
+        }
+    }
+    let r1 = PxE2::<N>::from(&q);
+    let r2: PxE2<N> = <Q32E2 as Quire<PxE2<N>>>::to_posit(&q);
+    let n = q.is_nar() as u8;
+    let r3 = PxE2::<N>::from(Q32E2::from_bits(q.to_bits()));
+    format!("{:x} {:x} {:x} {}", r1.to_bits(), r2.to_bits(), r3.to_bits(), n)
+}
+fn run_histpx(v: &[&str]) -> String {
+    macro_rules! disp { ($($n:literal)*) => { match hx(v[2]) as u32 { $($n => histpx::<$n>(v),)* _ => panic!("bad width") } } }
+    disp!(2 3 4 5 6 7 8 9 10 11 12 13 14 15 16 17 18 19 20 21 22 23 24 25 26 27 28 29 30 31 32)
+}
+
 /// `<ty> poly <deg|3a|4a> x c0 c1 ...` : Polynom::polyN with coefficients highest degree first
 macro_rules! poly {
     ($P:ty, $U:ty, $v:expr) => {{
@@ -128,6 +179,7 @@ pub fn run(v: &[&str]) -> Option<String> {
         ("p32", "sample_raw") => { let mut g = Replay { v: v[2..].iter().map(|s| hx(s) as u32).collect(), i: 0 }; let p: P32E2 = g.gen(); Some(format!("{:x}", p.to_bits())) }
         // the private helper behind P16E1 sampling, through the --cfg softposit_verif hook
         ("p16", "sub_one") => Some(format!("{:x}", P16E1::verif_sub_one(hx(v[2]) as u32).to_bits())),
+        ("q32", "histpx") => Some(run_histpx(v)),
         ("q8", "hist") => Some(quire_hist!(Q8E0, P8E0, u8, v, |q: &Q8E0| format!("{:08x}", q.to_bits()), |q: &Q8E0| Q8E0::from_bits(q.to_bits()))),
         ("q16", "hist") => Some(quire_hist!(Q16E1, P16E1, u16, v, |q: &Q16E1| format!("{:032x}", q.to_bits()), |q: &Q16E1| Q16E1::from_bits(q.to_bits()))),
         ("q32", "hist") => Some(quire_hist!(Q32E2, P32E2, u32, v,
